@@ -42,3 +42,56 @@ def _prepare_multimode(h):
     h.ensure("subsystem-j-of-the-input-sits-at-modes[j]-and-every-other-mode-keeps-its-place", isinstance(st, LT) and st.labels == expected, bounded_shape=True)
     h.ensure("exactly-the-target-modes-were-traced-out", isinstance(st, LT) and sorted(st.traced) == (sorted(modes) if k < n else []), bounded_shape=True)
     h.ensure("representation-flag-matches-the-data", c._pure == (k == n and in_pure), bounded_shape=True)
+
+
+# ---------------------------------------------------------------- Circuit.dealloc / alloc (C08): the register of the simulator
+DEALLOC_CASES = [(n, list(c), rp) for n in (2, 3, 4) for r in range(1, n) for c in itertools.permutations(range(n), r) for rp in (True, False)]
+
+
+@proof(["C08", "C05"], FC + ":Circuit.dealloc", native="from native.c08_fock_replay import replay; replay('dealloc', OBLIGATION, I)")
+def _dealloc(h):
+    """deleting a LIST of modes, in any order: exactly the listed modes are traced out (as whole modes) and every surviving
+    mode keeps its data, in ascending order of the surviving modes (the order the mode map assumes)"""
+    fc, fo = h.module(FC), h.module(FO)
+    n, modes, reg_pure = DEALLOC_CASES[h._reg("case", h.eng.choose(len(DEALLOC_CASES), "case"))]
+    reg = LT([(m, "k") for m in range(n)]) if reg_pure else LT([(m, s) for m in range(n) for s in ("k", "b")])
+    c = h.new(fc.Circuit, _num_modes=n, _trunc=3, _pure=reg_pure, _state=reg, _checks=True)
+    with h.stubbed(fc, "np", fake_np(fc.np)), h.stubbed(fo, "np", fake_np(fo.np)):
+        out = h.call(c.dealloc, list(modes))
+    h.ensure("no-exception", out.returned, bounded_shape=True)
+    if not out.returned:
+        return
+    st = c._state
+    keep = [m for m in range(n) if m not in modes]
+    h.ensure("only-partial-traces-of-whole-modes", isinstance(st, LT) and st.bad is None, bounded_shape=True)
+    h.ensure("exactly-the-listed-modes-were-traced-out", isinstance(st, LT) and sorted(st.traced) == sorted(modes), bounded_shape=True)
+    h.ensure("surviving-modes-keep-their-data-in-ascending-order", isinstance(st, LT) and st.labels == [(m, s) for m in keep for s in ("k", "b")], bounded_shape=True)
+    h.ensure("mode-count-and-representation-flag", c._num_modes == n - len(modes) and c._pure is False, bounded_shape=True)
+
+
+@proof(["C08", "C05"], FC + ":Circuit.alloc")
+def _alloc(h):
+    """new modes are appended after the existing ones, which keep their places"""
+    fc, fo = h.module(FC), h.module(FO)
+    n = (1, 2, 3)[h.eng.choose(3, "n")]
+    k = (1, 2)[h.eng.choose(2, "new")]
+    reg_pure = bool(h.eng.choose(2, "pure"))
+    reg = LT([(m, "k") for m in range(n)]) if reg_pure else LT([(m, s) for m in range(n) for s in ("k", "b")])
+    c = h.new(fc.Circuit, _num_modes=n, _trunc=3, _pure=reg_pure, _state=reg, _checks=True)
+    made = []
+
+    def vac(num, trunc, pure):
+        t = LT([(("NEW", j), "k") for j in range(num)]) if pure else LT([(("NEW", j), s) for j in range(num) for s in ("k", "b")])
+        made.append(t)
+        return t
+    with h.stubbed(fc, "np", fake_np(fc.np)), h.stubbed(fo, "np", fake_np(fo.np)), h.stubbed(fo, "vacuumState", lambda num, trunc: vac(num, trunc, True)), \
+            h.stubbed(fo, "vacuumStateMixed", lambda num, trunc: vac(num, trunc, False)):
+        out = h.call(c.alloc, k)
+    h.ensure("no-exception", out.returned, bounded_shape=True)
+    if not out.returned:
+        return
+    st = c._state
+    owner = list(range(n)) + [("NEW", j) for j in range(k)]
+    expected = [(o, "k") for o in owner] if reg_pure else [(o, s) for o in owner for s in ("k", "b")]
+    h.ensure("new-modes-appended-existing-modes-keep-their-places", isinstance(st, LT) and st.bad is None and st.labels == expected, bounded_shape=True)
+    h.ensure("mode-count-and-representation-flag", c._num_modes == n + k and c._pure is reg_pure, bounded_shape=True)
